@@ -6,6 +6,8 @@ package main
 
 import (
 	"flag"
+	"os"
+	"runtime/pprof"
 	"sync"
 
 	"verif/harness/adapt/te"
@@ -14,6 +16,7 @@ import (
 )
 
 var mode = flag.String("mode", "main", "main | race")
+var cpuprof = flag.String("cpuprofile", "", "write a CPU profile (debugging)")
 
 func bindLib(c *mon.Ctx, l *curveLib) (*grp, *grp, *slib) {
 	g1, err := l.bind(1)
@@ -41,6 +44,11 @@ func bindLib(c *mon.Ctx, l *curveLib) (*grp, *grp, *slib) {
 
 func main() {
 	c := mon.Init("C07")
+	if *cpuprof != "" {
+		f, _ := os.Create(*cpuprof)
+		pprof.StartCPUProfile(f)
+		defer pprof.StopCPUProfile()
+	}
 	var wg sync.WaitGroup
 	sem := make(chan struct{}, 16)
 	spawn := func(name string, f func()) {
@@ -119,5 +127,6 @@ func main() {
 		})
 	}
 	wg.Wait()
+	pprof.StopCPUProfile()
 	c.Finish()
 }
